@@ -26,7 +26,7 @@ def cases(tier, rng, run):
         c = gen_ctx.gen_ctx(rng)
         out.append(Case(c.rand_call(rng, styles=("pos", "kw", "mixed", "kwonly", "posonly"), omit_p=0.5), "call", {"ctx": c}))
     # a name bound in one way and met again in another, zero sizes included (exhaustive small family)
-    for c in gen_ctx.rebinding_contexts():
+    for c in gen_ctx.rebinding_contexts() + gen_ctx.group_contexts():
         out.append(Case(c.ctx_line(), "rebind", {"ctx": c}))
         out.append(Case(c.call_line("func", "pos"), "rebind", {"ctx": c}))
     return out
